@@ -118,6 +118,33 @@ func checkC13(c c13Case, ctx *vCtx) *vFailure {
 		return vFailf("csv log has %d rows, %d expected", len(rows), i)
 	}
 
+	// csv log with an end bound: the rows of the records up to that day, wherever they stand in the file
+	if c.Layout != "2006-01-02 15:04 -0700" && len(c.Days) >= 2 {
+		bound := c.Days[len(c.Days)/2]
+		out := run("csv", "log", "-e", vFmtDay(bound, c.Layout))
+		got, err := vReadCSV(out)
+		if err != nil {
+			return vFailf("csv log -e is not valid RFC 4180: %v", err)
+		}
+		var want [][2]string
+		for di, rec := range c.Log.Parsed() {
+			if c.Days[di] > bound {
+				continue
+			}
+			for _, m := range vMergeEntries(rec.Entries) {
+				want = append(want, [2]string{vFmtDay(c.Days[di], "2006-01-02"), m.Name})
+			}
+		}
+		if len(got) != len(want) {
+			return vFailf("csv log -e %s has %d rows, %d expected (every record dated up to the bound, in file order; days of the log: %v)", vFmtDay(bound, c.Layout), len(got), len(want), c.Days)
+		}
+		for i, w := range want {
+			if len(got[i]) != 3 || got[i][0] != w[0] || got[i][1] != w[1] {
+				return vFailf("csv log -e %s row %d = %q, expected (%s, %q, ...)", vFmtDay(bound, c.Layout), i+1, got[i], w[0], w[1])
+			}
+		}
+		ctx.Label("csv-log-with-end-bound")
+	}
 	// csv database (raw)
 	rawBook := c.Book
 	if len(c.RawAgain) > 0 {
